@@ -74,6 +74,15 @@ def rejection_ops(rng, L):
     out.append(("incompat.source_as_child", {"op": "add_comp", "parent": p, "comp": ce("Source", fresh())}))
     out.append(("incompat.list_parent_nonmux", {"op": "add_comp", "parent": [p], "comp": ce("Converter", fresh())}))
     out.append(("incompat.duplicate_parents", {"op": "add_comp", "parent": [p, p], "comp": ce("PMux", fresh())}))
+    if loads and not muxes and len(nonload) >= 1:
+        # a mux whose parent list names a component that cannot be a parent (a load) in a LATER position (or first)
+        bad_par = [rng.choice(nonload), rng.choice(loads)]
+        if rng.random() < 0.3:
+            bad_par.reverse()
+        if len(nonload) >= 2 and rng.random() < 0.4:
+            bad_par.insert(1, rng.choice([n for n in nonload if n != bad_par[0]] or nonload))
+        if len(set(bad_par)) == len(bad_par):
+            out.append(("incompat.mux_parent_is_load", {"op": "add_comp", "parent": bad_par, "comp": ce("PMux", fresh())}))
     if rails and not muxes:
         owner = rng.choice([n for n in names if L["rails"].get(n)])
         others2 = [n for n in nonload if n != owner]
